@@ -20,6 +20,10 @@ const chanCap = 8192
 // Concurrency is handed to Parameters.SetConcurrency for every party the builders create.
 var Concurrency = 4
 
+// ParamHook, when set, is applied to the parameters of every ECDSA keygen / re-sharing party the builders create
+// (used to switch the optional-proof flags individually).
+var ParamHook func(p *tss.Parameters)
+
 // MakePIDs builds sorted party ids from integer keys (given in any order).
 func MakePIDs(prefix string, keys []*big.Int) tss.SortedPartyIDs {
 	un := make(tss.UnSortedPartyIDs, len(keys))
@@ -57,6 +61,9 @@ func ECDSAKeygen(seed int64, keys []*big.Int, t int, pre []ecdsakeygen.LocalPreP
 		n := newNode(fmt.Sprintf("P%d", i), "all", pid)
 		params := tss.NewParameters(tss.S256(), ctx, pid, len(pids), t)
 		params.SetConcurrency(Concurrency)
+		if ParamHook != nil {
+			ParamHook(params)
+		}
 		end := make(chan *ecdsakeygen.LocalPartySaveData, 16)
 		n.Party = ecdsakeygen.NewLocalParty(params, n.Out, end, pre[i])
 		n.DrainEnd = drain(end)
@@ -156,6 +163,9 @@ func ECDSAResharing(seed int64, oldKeys []ecdsakeygen.LocalPartySaveData, t int,
 			n := newNode(fmt.Sprintf("O%d", i), "old", pid)
 			params := tss.NewReSharingParameters(tss.S256(), octx, nctx, pid, oldN, t, len(newP), newT)
 			params.SetConcurrency(Concurrency)
+			if ParamHook != nil {
+				ParamHook(params.Parameters)
+			}
 			if o.NoProofs {
 				params.SetNoProofMod()
 				params.SetNoProofFac()
@@ -171,6 +181,9 @@ func ECDSAResharing(seed int64, oldKeys []ecdsakeygen.LocalPartySaveData, t int,
 			n := newNode(fmt.Sprintf("N%d", i), "new", pid)
 			params := tss.NewReSharingParameters(tss.S256(), octx, nctx, pid, oldN, t, len(newP), newT)
 			params.SetConcurrency(Concurrency)
+			if ParamHook != nil {
+				ParamHook(params.Parameters)
+			}
 			if o.NoProofs {
 				params.SetNoProofMod()
 				params.SetNoProofFac()
